@@ -93,6 +93,8 @@ def noise_node(rng, kind):
         if rng.random() < 0.3: etree.SubElement(e, f'{{{FOO}}}x')
         return e
     if kind == 'foreign':
+        if rng.random() < 0.2:
+            return etree.fromstring('<bar xmlns="" a="1"><baz/></bar>')      # an element in no namespace at all
         e = etree.Element(f'{{{FOO}}}bar', nsmap={'foo': FOO}); e.set('a', '1')
         if rng.random() < 0.5: etree.SubElement(e, q('rect'), width='9', height='9', fill='red', id='zz' + str(rng.randint(0, 99)))
         if rng.random() < 0.3: etree.SubElement(e, f'{{{FOO}}}baz').text = 'x'
@@ -170,8 +172,8 @@ def equivalent(xa, xb):
         if sorted(a.attrib) != sorted(b.attrib): return f'{path}: attributes {sorted(a.attrib)} vs {sorted(b.attrib)}'
         for k in a.attrib:
             va, vb = a.get(k), b.get(k)
-            ma, mb = re.match(r'^url\(#(.+)\)$', va), re.match(r'^url\(#(.+)\)$', vb)
-            if ma and mb:
+            ma, mb = re.match(r'^url\(#([^)]+)\)(\s+\S+)?$', va), re.match(r'^url\(#([^)]+)\)(\s+\S+)?$', vb)     # a paint may carry a fallback
+            if ma and mb and ma.group(2) == mb.group(2):
                 if pairs.setdefault(ma.group(1), mb.group(1)) != mb.group(1): return f'{path}: gradient {ma.group(1)} corresponds to two different gradients'
             elif va != vb: return f'{path}: {k}={va!r} vs {vb!r}'
         ka, kb = [k for k in a if isinstance(k.tag, str)], [k for k in b if isinstance(k.tag, str)]
